@@ -2363,6 +2363,35 @@ fn main() {
             let _ = closer.join();
             println!("open_after_close={}", if raindb::DB::open(o2).is_ok() { "ok" } else { "err" });
         }
+        // repeated_open_attempts : disk file system (real flock): while the owner is open, an open, another open, a destroy and one more
+        // open are attempted in a row; all must be refused and the owner must keep working
+        "repeated_open_attempts" => {
+            use raindb::{ReadOptions, WriteOptions};
+            let disk: std::sync::Arc<dyn raindb::fs::FileSystem> = std::sync::Arc::new(raindb::fs::TmpFileSystem::new(None));
+            let mut o = raindb::DbOptions::with_memory_env();
+            o.filesystem_provider = std::sync::Arc::clone(&disk);
+            o.db_path = "db".to_string();
+            o.create_if_missing = true;
+            o.reuse_log_files = false;
+            let owner = raindb::DB::open(o.clone()).expect("open");
+            owner.put(WriteOptions::default(), b"k".to_vec(), b"v".to_vec()).unwrap();
+            let mut attempts = vec![];
+            let mut intruders = vec![];
+            for what in ["open", "open", "destroy", "open"] {
+                if what == "destroy" {
+                    attempts.push(if raindb::DB::destroy_database(o.clone()).is_ok() { "ok" } else { "err" });
+                } else {
+                    match raindb::DB::open(o.clone()) {
+                        Ok(db) => { attempts.push("ok"); intruders.push(db); }
+                        Err(_) => attempts.push("err"),
+                    }
+                }
+            }
+            println!("attempts={}", attempts.join(","));
+            let works = owner.put(WriteOptions::default(), b"k2".to_vec(), b"v2".to_vec()).is_ok() && owner.get(ReadOptions::default(), b"k").map(|v| v == b"v").unwrap_or(false);
+            println!("owner_still_works={}", works);
+            std::process::exit(0);
+        }
         // level_iter ops targetU:seq shape uk:seq:op:vv ... : cursor of the concatenating iterator over a level whose files hold
         // shape[i] consecutive entries each
         "level_iter" => {
